@@ -5,18 +5,20 @@ package props
 import (
 	"context"
 	"fmt"
+	"net"
 	"sync"
 	"testing"
 	"time"
 
+	"github.com/anacrolix/dht/v2"
 	"github.com/anacrolix/dht/v2/bep44"
 	"github.com/anacrolix/dht/v2/krpc"
 	"github.com/anacrolix/dht/v2/traversal"
 	"github.com/anacrolix/dht/v2/types"
 
 	"github.com/anacrolix/dht/v2/int160"
-	"github.com/anacrolix/generics"
 	k_nearest_nodes "github.com/anacrolix/dht/v2/k-nearest-nodes"
+	"github.com/anacrolix/generics"
 )
 
 type elemR = k_nearest_nodes.Elem
@@ -102,4 +104,54 @@ func TestRaceWrapper(t *testing.T) {
 		}
 		wg.Wait()
 	}
+}
+
+// TestRaceC15: several goroutines decode and re-encode different datagrams with compact lists at
+// the same time. Besides feeding the race detector it compares each result with the sequential one.
+func TestRaceC15(t *testing.T) {
+	exp, v := c15ConcExpected()
+	if v != "" {
+		t.Fatal(v)
+	}
+	ds := c15ConcDatagrams()
+	var wg sync.WaitGroup
+	for g := 0; g < 6; g++ {
+		g := g
+		wg.Add(1)
+		go func() {
+			defer wg.Done()
+			for i := 0; i < 400; i++ {
+				k := (g + i) % len(ds)
+				if got := c15ConcJob(ds[k]); got != exp[k] {
+					t.Errorf("concurrent decode of datagram %d differs from the sequential result:\n got %s\nwant %s", k, got, exp[k])
+					return
+				}
+			}
+		}()
+	}
+	wg.Wait()
+}
+
+// TestRaceC17: the three callers of the C17 sync tier, free-running.
+func TestRaceC17(t *testing.T) {
+	ips := []net.IP{{124, 31, 75, 21}, {21, 75, 31, 124}, net.ParseIP("2001:db8:1:2:3:4:5:6")}
+	var wg sync.WaitGroup
+	for g := range ips {
+		g := g
+		wg.Add(1)
+		go func() {
+			defer wg.Done()
+			for i := 0; i < 2000; i++ {
+				var id krpc.ID
+				id[5], id[19] = byte(i), byte(i+g)
+				dht.SecureNodeId(&id, ips[g])
+				if !dht.NodeIdSecure(id, ips[g]) {
+					t.Errorf("caller %d: secured ID does not verify", g)
+					return
+				}
+				dht.NodeIdSecure(id, ips[(g+1)%3])
+			}
+		}()
+	}
+	wg.Wait()
 }
